@@ -25,7 +25,8 @@ PRISTINE_JSON = json.dumps(PRISTINE, sort_keys=True)
 def urlkey(plan):
     return json.dumps([plan['app'], plan['path'], plan.get('method', 'GET'), plan.get('qs', ''),
                        plan.get('ctype', ''), _mask(plan.get('body') or ''), plan.get('redirect_to', ''),
-                       sorted((f['at'], f['exc']) for f in plan.get('faults') or ()), bool(plan.get('abandon'))])
+                       sorted((f['at'], f['exc']) for f in plan.get('faults') or ()), bool(plan.get('abandon')),
+                       bool(plan.get('rawqs'))])
 
 
 def _mask(s):
@@ -424,7 +425,8 @@ def _oracle(case, res):
                                 % (i, tok, st, ch, val), 'token_crossed:' + ch))
                 elif ch == 'resp' and val == 'UNMARKED':
                     pass
-                elif ch in ('proxy.qs', 'serving.qs', 'environ', 'header', 'resp') and (val is None or tok not in val):
+                elif ch in ('proxy.qs', 'serving.qs', 'environ', 'header', 'proxy.header', 'resp') \
+                        and (val is None or tok not in val):
                     bad.append(('request %d (%s) at %s: channel %s lost the request: %r' % (i, tok, st, ch, val),
                                 'token_lost:' + ch))
             want_mw = 'mw|%s' % case['site']['apps'][plan['app']]['wsgi_tag'] \
